@@ -778,6 +778,18 @@ func runNativeMsg(replayPath, verifDir, repo, gowork string, files []*harnessFil
 	if line == "" {
 		// a crash that escaped (e.g. panic in another goroutine, fatal error)
 		if strings.Contains(so, "panic:") || strings.Contains(so, "fatal error:") {
+			// an assertion of a harness fake that failed on a goroutine the real code
+			// started: the panic value names the assertion
+			if i := strings.Index(so, "VERIF-ASSERT-FAILED: "); i >= 0 && kind == "assert" {
+				rest := so[i+len("VERIF-ASSERT-FAILED: "):]
+				if j := strings.Index(rest, " :VERIF-END"); j >= 0 {
+					got := rest[:j]
+					if wantMsg == "" || strings.Contains(got, wantMsg) {
+						return true, "VERIF-REPLAY assert-failed (on a goroutine started by the code under test): " + got
+					}
+					return false, "assert-failed on another goroutine: " + got + "  [a different assertion than the one violated symbolically]"
+				}
+			}
 			return kind == "panic" || kind == "deadlock", "process crashed: " + firstLines(tail(so, 15), 15)
 		}
 		return false, "no replay verdict; output: " + firstLines(tail(so, 15), 15)
